@@ -64,7 +64,8 @@ def h_replay(ctx, pname, rec, replays):
     orig_create = algopy.Function.create.__func__
 
     def counting_create(cls, *a, **k):
-        calls['n'] += 1
+        if getattr(algopy.Function, 'cgraph', None) is not None:     # recording is on
+            calls['n'] += 1
         return orig_create(cls, *a, **k)
     algopy.Function.create = classmethod(counting_create)
     try:
